@@ -160,30 +160,26 @@ func CallGoMethodFunction(env *Zlisp, name string, args []Sexp) (Sexp, error) {
 			default:
 				// go through the type registry
 				found := false
-				for hashName, factory := range GoStructRegistry.Registry {
-					st, err := factory.Factory(env, nil)
-					if err != nil {
-						return SexpNull, fmt.Errorf("MakeHash '%s' problem on Factory call: %s",
-							hashName, err)
-					}
-					//Q("got st from Factory, checking if types match")
-					if reflect.ValueOf(st).Type() == out[i].Type() {
-						//Q("types match")
+				factory, err := GoStructRegistry.LookupByGoType(env, out[i].Type())
+				if err != nil {
+					return SexpNull, fmt.Errorf("problem on Factory call: %s", err)
+				}
+				if factory != nil {
+					if out[i].Kind() == reflect.Ptr && out[i].IsNil() {
+						r = append(r, SexpNull)
+					} else {
 						retHash, err := MakeHash([]Sexp{}, factory.RegisteredName, env)
 						if err != nil {
 							return SexpNull, fmt.Errorf("MakeHash '%s' problem: %s",
-								hashName, err)
+								factory.RegisteredName, err)
 						}
-
-						//Q("filling from shadow")
 						err = retHash.FillHashFromShadow(env, f)
 						if err != nil {
 							return SexpNull, err
 						}
 						r = append(r, retHash)
-						found = true
-						break
 					}
+					found = true
 				}
 				if !found {
 					r = append(r, &SexpReflect{Val: out[i]})
